@@ -176,8 +176,11 @@ class GateSim(PeerSim):
         if tr.label != "E":
             return
         e = self.ep
-        for fr in refframer.scan_frames(data):
-            d = refframer.fdict(fr)
+        # frames completed by this write (stream view: split / coalesced writes look the same)
+        all_fr = self.frames_written("E")
+        fresh = all_fr[self.wire_ptr:]
+        self.wire_ptr = len(all_fr)
+        for (ev_w, cid_w, d, fr, dropped) in fresh:
             t = d.get("35")
             if e["disconnected"]:
                 if dropped:
@@ -459,12 +462,10 @@ class GateSim(PeerSim):
         lv = self.live()
         delivered = [m for (_, mid, m) in self.eut.delivered[cur["delivered"]:]]
         wrote = []
-        for (ev, cid, data, dropped) in self.writes.get("E", [])[cur["writes"]:]:
-            for fr in refframer.scan_frames(data):
-                d = refframer.fdict(fr)
-                if d.get("35") == "1":
-                    continue  # the watchdog's own TestRequest (timer-driven), not a reaction to the frame
-                wrote.append(d)
+        for (ev, cid, d, fr, dropped) in self.frames_written("E"):
+            if ev <= cur["ev0"] or d.get("35") == "1":
+                continue  # (35=1: the watchdog's own timer-driven TestRequest, not a reaction to the frame)
+            wrote.append(d)
         now = self.eut.connection_state
         disconnected = now <= DISC
         ctx = f"defect={defect}/type={t}/state={st0.name}/role={self.eut_role}"
